@@ -940,6 +940,10 @@ class Module(ABC):
         assert (
             len(self._branches_in_view) == 1
         ), "The number of compartments can only be set for one branch at a time."
+        assert (
+            len(self._nodes_in_view)
+            == self.base.ncomp_per_branch[self._branches_in_view[0]]
+        ), "The number of compartments can only be set for an entire branch."
 
         # Update all attributes that are affected by compartment structure.
         view = self.nodes.copy()
